@@ -243,6 +243,9 @@ impl TreeSys for Fam {
     fn max_len(&self) -> usize {
         self.max_len
     }
+    fn name(&self) -> String {
+        "maps".into()
+    }
     fn visit(&self, w: &[u8], _p: Option<&()>, ctx: &mut Ctx) {
         self.check_word(w, ctx)
     }
